@@ -2,7 +2,8 @@ SPECIFICATION Spec
 CONSTANTS
   Progs <- CurrentProgs
   MaxFaults = 2
-  ModeSet = {"0644", "0600", "0755", "0444"}
+  Umask = 18
+  ModeSet = {420, 384, 493, 292}
   FormSet = {"file-nodir", "file-dir", "walk-dot", "walk-dir"}
 INVARIANTS TypeOK Formatted ExportDesign
 PROPERTY Terminates
